@@ -381,8 +381,8 @@ func shapeOf(s *Spec) string {
 		fl += "+prompt"
 	}
 	op := s.Op
-	if s.Mode == "shared" && s.Probe == "" {
-		op = "shared("
+	if (s.Mode == "shared" || s.Mode == "concurrent") && s.Probe == "" {
+		op = s.Mode + "("
 		for i, x := range s.Subs {
 			if i > 0 {
 				op += ","
@@ -747,9 +747,11 @@ func (q *seqRun) publishTo(x *subscriber, kind string, phase int) (*msg, error) 
 	return m, err
 }
 
+func (q *seqRun) multiTopic() bool { return q.spec.Mode == "shared" || q.spec.Mode == "concurrent" }
+
 // followup publishes one more valid message x must get.
 func (q *seqRun) followup(x *subscriber, phase int) (*msg, error) {
-	if q.spec.Mode == "shared" {
+	if q.multiTopic() {
 		return q.publishTo(x, "followup", phase)
 	}
 	return q.publishOnTopic("followup", phase)
@@ -757,8 +759,10 @@ func (q *seqRun) followup(x *subscriber, phase int) (*msg, error) {
 
 // role of message m for subscriber x.
 func (q *seqRun) role(x *subscriber, m *msg) string {
-	if q.spec.Mode == "shared" && q.spec.Probe == "" {
+	if q.multiTopic() && q.spec.Probe == "" {
 		switch {
+		case m.Target != x && q.spec.Mode == "concurrent":
+			return "forbidden:foreign-topic-delivered:other-topic-of-the-same-publisher"
 		case m.Target != x:
 			return "forbidden:foreign-topic-delivered:other-subscription-of-the-same-provider"
 		case x.unsub && m.Phase == 3:
@@ -1254,6 +1258,8 @@ func runSeq(b *bus, s *Spec) *Result {
 		q.runBackpressure()
 	} else if s.Mode == "prompt" && s.Probe == "" {
 		q.runPrompt()
+	} else if s.Mode == "concurrent" && s.Probe == "" {
+		q.runConcurrent()
 	} else {
 		q.run()
 	}
@@ -1591,6 +1597,173 @@ func (q *seqRun) runBackpressure() {
 	q.count("sequences_completed", 1)
 }
 
+// settleSub settles one subscription of a multi-topic sequence and reports.
+func (q *seqRun) settleSub(x *subscriber, ph int, label, setting string) bool {
+	st, dump := q.settle(x, ph)
+	switch st {
+	case "complete":
+		return true
+	case "inconclusive":
+		q.inconclusive(fmt.Sprintf("subscription %s did not log %d required messages within %v although its workers are alive: %v", x.name, len(q.missing(x)), waitBound, grepShort(dump, x.workerFn)))
+		return false
+	case "deadlock":
+		q.vioDeadlock(x, dump)
+		q.aborted = true
+		return false
+	}
+	miss := q.missing(x)
+	if x.sub.Topic() != x.topic {
+		q.vio("subscriber-topic-differs-from-publisher-topic:scope="+scopeName(x.op), fmt.Sprintf("the emitted subscriber of scope %s subscribed to %q while the emitted publisher publishes on %q: the handler is never invoked (%d of %d valid messages missing, no error anywhere)", scopeName(x.op), x.sub.Topic(), x.topic, len(miss), len(q.required(x))),
+			map[string]interface{}{"subscription": x.name, "publisher_topic": x.topic, "subscription_topic": x.sub.Topic(), "status": st})
+		q.aborted = true
+		return false
+	}
+	q.vio(label+":not-delivered:"+st, fmt.Sprintf("%s, subscription %s never got %d of %d valid messages published on its own topic (%s)", setting, x.name, len(miss), len(q.required(x)), st),
+		map[string]interface{}{"subscription": x.name, "topic": x.topic, "status": st, "missing_count": len(miss), "first_missing_step": miss[0].Step, "first_missing_cid": miss[0].Cid, "logged": x.rec.length(), "goroutines": grep(dump, "frugal/lib/go.")})
+	q.aborted = true
+	return false
+}
+
+// runConcurrent: ONE emitted publisher (one FScopeClient / publisher
+// transport) is used by several goroutines at the same time, each publishing
+// to its own topic (different prefix-variable values and operations);
+// single-worker subscribers, one per topic, on another connection.
+func (q *seqRun) runConcurrent() {
+	s := q.spec
+	var err error
+	for _, lp := range []**link{&q.pubL, &q.aL, &q.tapL} {
+		if *lp, err = q.bus.connect(s.Broker); err != nil {
+			q.inconclusive("broker connection failed: " + err.Error())
+			return
+		}
+	}
+	if !q.openPublishers() {
+		return
+	}
+	var taps []string
+	for i, ss := range s.Subs {
+		// every subscription gets its own provider: only the publisher is shared
+		x, err := q.subscribeVia(fmt.Sprintf("S%d(%s %s)", i, ss.Op, ss.User), q.providerFor(q.aL), ss.Op, ss.User, 0)
+		if err != nil {
+			q.inconclusive("Subscribe: " + err.Error())
+			return
+		}
+		x.idx = i
+		q.subs = append(q.subs, x)
+		if x.topic == "" {
+			q.inconclusive("the emitted publisher did not publish on the capture transport")
+			return
+		}
+		taps = append(taps, x.topic)
+	}
+	if s.Broker == "nats" {
+		// everything the broker routes is counted, also a message that went
+		// out on a subject nobody subscribed to
+		sub, err := q.tapL.nc.Subscribe(">", func(m *nats.Msg) { atomic.AddInt64(&q.tapCount, 1) })
+		if err == nil {
+			err = q.tapL.nc.Flush()
+		}
+		if err != nil {
+			q.inconclusive("tap: " + err.Error())
+			return
+		}
+		q.tapStops = append(q.tapStops, func() { sub.Unsubscribe() })
+	} else {
+		for _, t := range taps {
+			if err := q.startTapOn(t); err != nil {
+				q.inconclusive("tap: " + err.Error())
+				return
+			}
+		}
+	}
+	if !q.waitBrokerSubscriptions(taps, q.subs) {
+		return
+	}
+	// prepared in this goroutine (the harness state is not shared); the
+	// publishing goroutines only call the emitted publisher
+	type item struct {
+		m   *msg
+		ctx frugal.FContext
+		p   *mainsvc.Payload
+		t   *base.Thing
+	}
+	lists := make([][]item, len(q.subs))
+	for n := 0; n < s.N; n++ {
+		for i, x := range q.subs {
+			m := q.newMsg("valid", "", 1)
+			m.Target = x
+			it := item{m: m, ctx: frugal.NewFContext(m.Cid)}
+			if n%16 == 0 {
+				it.ctx.AddRequestHeader("k", fmt.Sprint(n))
+			}
+			if x.op == "Sent" {
+				it.p = &mainsvc.Payload{First: &mainsvc.BigFirst{N: int32(m.ID), Big: x.user}}
+				m.Canon = canonPayload(it.p)
+			} else {
+				it.t = &base.Thing{AnID: int32(m.ID), AString: x.user}
+				m.Canon = canonThing(it.t)
+			}
+			lists[i] = append(lists[i], it)
+		}
+	}
+	q.letters = append(q.letters, fmt.Sprintf("[%d goroutines x %d publishes, goroutine i -> topic i]", len(q.subs), s.N)...)
+	var wg sync.WaitGroup
+	errs := make([]error, len(q.subs))
+	start := make(chan struct{})
+	for i, x := range q.subs {
+		wg.Add(1)
+		go func(i int, x *subscriber) {
+			defer wg.Done()
+			<-start
+			for _, it := range lists[i] {
+				var err error
+				if x.op == "Sent" {
+					err = q.pubE.PublishSent(it.ctx, x.user, it.p)
+				} else {
+					err = q.pubE.PublishNum(it.ctx, x.user, it.t)
+				}
+				if err != nil {
+					errs[i] = err
+					return
+				}
+			}
+		}(i, x)
+	}
+	close(start)
+	wg.Wait()
+	for i := range lists {
+		if errs[i] != nil {
+			q.inconclusive("publish failed: " + errs[i].Error())
+			return
+		}
+		for _, it := range lists[i] {
+			it.m.PubHdrs = it.ctx.RequestHeaders()
+		}
+		q.onSubject += int64(len(lists[i]))
+		q.count("valid_published", len(lists[i]))
+		q.count("concurrently_published", len(lists[i]))
+	}
+	for _, x := range q.subs {
+		if _, err := q.publishTo(x, "sentinel", 1); err != nil {
+			q.inconclusive("publish failed: " + err.Error())
+			return
+		}
+	}
+	if !q.waitTap() {
+		// the publisher reported success for more messages than the broker
+		// routed on any subject: the subscribers' logs decide
+		q.count("concurrent_published_but_never_routed", int(q.onSubject-atomic.LoadInt64(&q.tapCount)))
+		q.onSubject = atomic.LoadInt64(&q.tapCount)
+	}
+	for _, x := range q.subs {
+		if !q.settleSub(x, 1, "concurrent-publishers", fmt.Sprintf("with %d goroutines publishing to different topics through one emitted publisher", len(q.subs))) {
+			return
+		}
+	}
+	q.count("concurrent_publisher_sequences_completed", 1)
+	q.count("sequences_completed", 1)
+}
+
 // runShared: several live subscriptions through ONE scope provider.
 func (q *seqRun) runShared() {
 	s := q.spec
@@ -1648,27 +1821,7 @@ func (q *seqRun) runShared() {
 			return false
 		}
 		for _, x := range live {
-			st, dump := q.settle(x, ph)
-			switch st {
-			case "complete":
-			case "inconclusive":
-				q.inconclusive(fmt.Sprintf("subscription %s did not log %d required messages within %v although its workers are alive: %v", x.name, len(q.missing(x)), waitBound, grepShort(dump, x.workerFn)))
-				return false
-			case "deadlock":
-				q.vioDeadlock(x, dump)
-				q.aborted = true
-				return false
-			default:
-				miss := q.missing(x)
-				if x.sub.Topic() != x.topic {
-					q.vio("subscriber-topic-differs-from-publisher-topic:scope="+scopeName(x.op), fmt.Sprintf("the emitted subscriber of scope %s subscribed to %q while the emitted publisher publishes on %q: the handler is never invoked (%d of %d valid messages missing, no error anywhere)", scopeName(x.op), x.sub.Topic(), x.topic, len(miss), len(q.required(x))),
-						map[string]interface{}{"subscription": x.name, "publisher_topic": x.topic, "subscription_topic": x.sub.Topic(), "status": st})
-					q.aborted = true
-					return false
-				}
-				q.vio("shared-provider:not-delivered:"+st, fmt.Sprintf("with %d live subscriptions made through one scope provider, subscription %s never got %d of %d valid messages published on its own topic (%s)", len(q.subs), x.name, len(miss), len(q.required(x)), st),
-					map[string]interface{}{"subscription": x.name, "topic": x.topic, "status": st, "missing_count": len(miss), "first_missing_step": miss[0].Step, "first_missing_cid": miss[0].Cid, "logged": x.rec.length(), "goroutines": grep(dump, "frugal/lib/go.")})
-				q.aborted = true
+			if !q.settleSub(x, ph, "shared-provider", fmt.Sprintf("with %d live subscriptions made through one scope provider", len(q.subs))) {
 				return false
 			}
 		}
